@@ -13,10 +13,11 @@ Section SampleRun.
   Definition sflat_mat (n m : nat) (A : mat) : list F :=
     flat_map (fun i => map (mget A i) (seq 0 m)) (seq 0 n).
 
-  (* draw number t (consumption order) is the l-th unit vector, all others zero *)
-  Definition unit_draws (n T t l : nat) : list mat :=
-    map (fun t' => mk n 1 (fun i _ => if Nat.eqb t' t && Nat.eqb i l then 1 else 0)) (seq 0 T).
-  Definition zero_draws (n T : nat) : list mat := map (fun _ => mzero n 1) (seq 0 T).
+  (* draw number t (consumption order) is the unit matrix e_{l,b} (n x c), all others zero *)
+  Definition unit_draws (n c T t l b : nat) : list mat :=
+    map (fun t' => mk n c (fun i a => if Nat.eqb t' t && Nat.eqb i l && Nat.eqb a b then 1 else 0))
+        (seq 0 T).
+  Definition zero_draws (n c T : nat) : list mat := map (fun _ => mzero n c) (seq 0 T).
 
   (* one sample: all time points (time order), each n x c row-major *)
   Definition g_sample (reverse : bool) (n c : nat) (m0 L0 : mat) (conds : list cond)
@@ -26,14 +27,15 @@ Section SampleRun.
     | Some xs => Some (flat_map (sflat_mat n c) xs)
     end.
 
-  (* sample(0) followed by sample(e_{t,l}) for every scalar draw (t: consumption
-     order, l < n) *)
+  (* sample(0) followed by sample(e_{t,l,b}) for every scalar draw (t: consumption
+     order, l < n, b < c; b fastest) *)
   Definition g_sample_all (reverse : bool) (n c : nat) (m0 L0 : mat) (conds : list cond)
              (Ls : list mat) : option (list F) :=
     let T := S (length conds) in
     let run := fun z => g_sample reverse n c m0 L0 conds Ls z in
-    let all := run (zero_draws n T)
-               :: flat_map (fun t => map (fun l => run (unit_draws n T t l)) (seq 0 n)) (seq 0 T) in
+    let all := run (zero_draws n c T)
+               :: flat_map (fun t => flat_map (fun l => map (fun b => run (unit_draws n c T t l b)) (seq 0 c))
+                                              (seq 0 n)) (seq 0 T) in
     if forallb (fun o => match o with Some _ => true | None => false end) all
     then Some (flat_map (fun o => match o with Some l => l | None => [] end) all)
     else None.
